@@ -51,6 +51,7 @@ Fixpoint enc_op (fs : list val) (un : bytes) (op : eop) (buf : bytes) {struct op
   | EMsgRepPtr slot num idx | EMsgRepVal slot num idx =>
       rfold (fun x b => enc_always_message num (rec idx (opt_of_msg x)) b) (as_list (slot_get fs slot)) buf
   | EMsgPresent slot num idx => enc_present_message num (rec idx (opt_of_msg (slot_get fs slot))) buf
+  | EMsgAlwaysVal slot num idx => enc_always_message num (rec idx (opt_of_msg (slot_get fs slot))) buf
   | EEnum always slot num => Ok (enc_single KInt32 always num (slot_get fs slot) buf)
   | ERepEnum slot num => enc_repeated_enum num (map as_int (as_list (slot_get fs slot))) buf
   | ECast c ptr rep slot num =>
@@ -66,6 +67,8 @@ Fixpoint enc_op (fs : list val) (un : bytes) (op : eop) (buf : bytes) {struct op
       | VOpt (Some x), EEnum always _ num => Ok (enc_single KInt32 always num x buf)
       | VOpt (Some x), ECast c _ _ _ num => enc_cast_elem c num x buf
       | VMsg (Some m), EMsgPtr _ num idx => enc_message num (rec idx (Some m)) buf
+      | VOpt (Some x), EMsgAlwaysVal _ num idx =>
+          match x with VEmb fs1 u1 => enc_always_message num (rec idx (Some (fs1, u1))) buf | _ => Ok buf end
       | _, _ => Ok buf                                    (* another member (or none) selected *)
       end
   | EUnrec => Ok (buf ++ un)
@@ -269,6 +272,15 @@ Definition dec_op_run (op : dop) (st : dstate) (t : msgv) : dstate * msgv :=
                   (fun c (v : val) =>
                      let m := match v with VMsg (Some m) => m | _ => zero_msgv idx end in
                      let '(c', m') := rec idx c m in (c', VMsg (Some m')))
+                  st (slot_get cleared slot) in
+            (st', set_slot t0 slot v')
+        | DMsgPresent _ _ idx =>
+            (* the wrapper holds the message by value: c.PresentMessage(num, m.F.Decode) on the (new or reused) wrapper *)
+            let '(st', v') :=
+                dec_message F num
+                  (fun c (v : val) =>
+                     let m := match v with VOpt (Some (VEmb fs1 u1)) => (fs1, u1) | _ => zero_msgv idx end in
+                     let '(c', m') := rec idx c m in (c', VOpt (Some (VEmb (fst m') (snd m')))))
                   st (slot_get cleared slot) in
             (st', set_slot t0 slot v')
         | _ => (fail 0 ECustom st, t0)
